@@ -32,9 +32,17 @@ func (c *Ctx) detachedNotifyCtx(f *Func, ctxArg ast.Expr, ctxParam types.Object)
 			return false, "context is not built with context.WithTimeout or context.WithDeadline"
 		}
 		inner, ok := ast.Unparen(call.Args[0]).(*ast.CallExpr)
+		if ok && f.IsCallTo(inner, woc) && len(inner.Args) == 1 && f.ObjOf(inner.Args[0]) != ctxParam {
+			// the literal may have received the caller's context as an argument
+			if of, oe := f.resolveValue(inner.Args[0]); of.ObjOf(oe) == ctxParam {
+				inner = &ast.CallExpr{Fun: inner.Fun, Args: []ast.Expr{inner.Args[0]}}
+				goto parentOK
+			}
+		}
 		if !ok || !f.IsCallTo(inner, woc) || len(inner.Args) != 1 || f.ObjOf(inner.Args[0]) != ctxParam {
 			return false, "parent is not context.WithoutCancel(ctx) of the caller's context (" + exprStr(call.Args[0]) + "): a Background context loses the request-scoped values used for routing, the cancelled ctx itself can never deliver the notice"
 		}
+	parentOK:
 		// the bound comes from notifyCancellationTimeout and from nothing the caller's context says: that context is done, its
 		// deadline (if it had one) has passed, and a notice bounded by it can never be delivered
 		deps := f.dependsOn(call.Args[1])
@@ -205,7 +213,7 @@ func rulesC04(c *Ctx) {
 			}
 			c.Check(!blocked, "call:no-notify-on-return-path", call, r, "no synchronous Notify/cancelCall on the default return path (a peer that stopped draining must not delay the caller; issue #1150)")
 			c.Check(len(r.Results) == 1 && func() bool {
-				ce, ok := ast.Unparen(r.Results[0]).(*ast.CallExpr)
+				ce, ok := ast.Unparen(call.valueOf(r.Results[0])).(*ast.CallExpr)
 				if !ok {
 					return false
 				}
@@ -248,7 +256,7 @@ func rulesC04(c *Ctx) {
 				ok, why := c.detachedNotifyCtx(lit, nc.Args[0], ctxParam)
 				c.Check(ok, "call:notify-context", lit, nc, "the notice is sent with WithTimeout(WithoutCancel(ctx), notifyCancellationTimeout) and a deferred stop %s", why)
 				c.Check(len(nc.Args) == 3 && call.ObjOf(nc.Args[1]) == c.Obj(pM, "notificationCancelled"), "call:notify-method", lit, nc, "the method is notifications/cancelled")
-				c.Check(len(nc.Args) == 3 && requestIDIsCallID(lit, nc.Args[2], acVar), "call:notify-names-this-call", lit, nc, "RequestID is call.ID().Raw() of the call being abandoned")
+				c.Check(len(nc.Args) == 3 && func() bool { of, oe := lit.resolveValue(nc.Args[2]); return requestIDIsCallID(of, oe, acVar) }(), "call:notify-names-this-call", lit, nc, "RequestID is call.ID().Raw() of the call being abandoned")
 			}
 		}
 		c.Pin("notifying goroutine", nGo, 1)
@@ -291,7 +299,7 @@ func rulesC04(c *Ctx) {
 		for _, nc := range cc.CallsIn(cc.Body, notifyObj, false) {
 			ok, why := c.detachedNotifyCtx(cc, nc.Args[0], cctx)
 			c.Check(ok, "cancelCall:notify-context", cc, nc, "bounded detached context %s", why)
-			c.Check(len(nc.Args) == 3 && requestIDIsCallID(cc, nc.Args[2], ccall), "cancelCall:notify-names-this-call", cc, nc, "RequestID is call.ID().Raw()")
+			c.Check(len(nc.Args) == 3 && func() bool { of, oe := cc.resolveValue(nc.Args[2]); return requestIDIsCallID(of, oe, ccall) }(), "cancelCall:notify-names-this-call", cc, nc, "RequestID is call.ID().Raw()")
 		}
 		rvs := cg.callVertices(retireObj)
 		okAll := len(rvs) > 0
@@ -700,14 +708,21 @@ func rulesC04(c *Ctx) {
 				lg := l.Graph()
 				guards := lg.GuardsAt(lg.VertexOf(sc))
 				seen := map[*types.Var]bool{}
+				var flat []Atom
 				for _, a := range guards {
+					splitAtoms(a.E, a.Val, &flat)
+				}
+				for _, a := range append(append([]Atom{}, guards...), flat...) {
 					x, y, op, ok := binaryCmp(a.E)
-					if !ok || op != token.EQL || !a.Val {
+					if !ok {
 						continue
 					}
 					ce, isCe := ast.Unparen(x).(*ast.CallExpr)
 					z, isZ := l.ConstInt(y)
-					if isCe && l.BuiltinName(ce) == "len" && isZ && z == 0 {
+					// len(x) == 0, in any spelling: == 0 / <= 0 / < 1 hold, or != 0 / > 0 / >= 1 do not
+					saysEmpty := isZ && ((a.Val && ((op == token.EQL && z == 0) || (op == token.LEQ && z == 0) || (op == token.LSS && z == 1))) ||
+						(!a.Val && ((op == token.NEQ && z == 0) || (op == token.GTR && z == 0) || (op == token.GEQ && z == 1))))
+					if isCe && l.BuiltinName(ce) == "len" && saysEmpty {
 						for _, fld := range []*types.Var{outC, byID} {
 							if l.IsField(ce.Args[0], fld) {
 								seen[fld] = true
